@@ -62,6 +62,8 @@ def run(prog, rep, tier):
         ok = b.get("loc") == ("param", "mean") and b.get("scale") is not None and is_sd_of(b["scale"], ("param", "var")) and b.get("size") == ("param", "n")
     rep.check("UNIT.noise-normal", ok, fwhere(f3), "noise.normal(mean, var) draws normal(loc=mean, scale=var**0.5, size=n)",
               "noise.normal does not pass the standard deviation var**0.5 as scale")
+    # no branch / index of the computation may depend on the *values* of the moments
+    pattern_method(prog, rep, ND + "sample", ["mean", "covariance"], rule="NODECISION")
     rep.require_count("SLOTS", 1)
     rep.require_count("SAME-OBJECT", 1)
     rep.assume("numpy.random.multivariate_normal(mean, cov, size=n) returns n i.i.d. rows of N(mean, cov)")
